@@ -50,6 +50,19 @@ CLAIMED["C13"] = dict(
    technique="contract-based deductive verification with ghost slot state and call-site obligations on regenerated code; replay by rendering the corpus templates with the real generated code and runtime",
    design="5.C13")
 
+CLAIMED["C01"] = dict(
+   level="proof",
+   text="(1) Runtime sinks: templ.EscapeString is the stdlib escaper (assumed: result in HTML_ESCAPED, unescape inverts it); RenderAttributes appends, on success, a run of ' name' / ' name=\"value\"' items whose names and values are in HTML_ESCAPED (loop contract over the sorted keys, one lemma use per case of the type switch: string, *string, bool, *bool, KeyValue forms, func); writeScriptHeader and JSONScriptElement.Render emit '<script' + optional id/type/nonce attributes with escaped values + '>' (regular-language postconditions over the bytes appended). (2) Generated code: a ghost HTML tokenizer context is computed from the constant literals each generated closure writes; at every dynamic write the obligation is that the value lies in the language that is safe in that context (text: TEXT_SAFE, double-quoted attribute: DQ_ATTR_SAFE, script positions: C03 languages; no dynamic write in any other state; spread attributes only inside a tag; components / style / script elements only in the data state), discharged from the escaper's contract and the inclusion lemmas HTML_ESCAPED ⊆ TEXT_SAFE, ⊆ DQ_ATTR_SAFE (decided for all strings by automaton emptiness). Strings are unbounded and symbolic; programs are the regenerated corpus (all generator/test-* templates + /verif/corpus).",
+   note="govc + solvers; HTML tokenizer facts (html.lang, sanity examples every run); html.EscapeString assumed; the literal-driven tokenizer model in htmlctx.go is part of the trusted generator of obligations; CR/NUL input-stream preprocessing outside the claim; corpus-bounded for generated sinks",
+   technique="contract-based deductive verification: regular-language postconditions on the runtime sinks, ghost HTML context + sink preconditions on regenerated code, language-inclusion lemmas",
+   design="5.C01")
+CLAIMED["C12"] = dict(
+   level="proof",
+   text="Per-operation contracts on the per-context registry with the key sets of contextValue.ss / onceHandles as abstract view: addScript/addClass/setHasBeenRendered add exactly one key, the has* queries leave the view unchanged; RenderScriptItems is proved equal to the recursive specification 'emit if absent, then record' over its argument list (regFold / emitFold, loop invariant per prefix) - exactly the definitions of the scripts not yet registered and not earlier in the list are emitted, in order, and all names are recorded; OnceHandle.Once records the handle before rendering and renders nothing if it was recorded; CSS emission site: emit only if absent, record immediately, registry monotone; CSSMiddleware registers every class of the global stylesheet before calling the next handler. 'Before use' on generated code: at every attribute sink that writes a script call, the script's name is in the registry (established by the hoisted RenderScriptItems; corpus of script/css templates in the quick tier, full corpus in the thorough tier). At-most-once over histories and independence of contexts follow by induction from these contracts plus monotonicity (argument written in DESIGN.md, not mechanised). Not under contract: the positive half for nested CSS container forms (renderCSSItemsToBuilder recursion).",
+   note="govc + solvers; one render = one shared context value (getContext/InitializeContext trusted); script template functions / JSFuncCall are pure functions of their arguments; interface contract of Render includes registry monotonicity for user components; corpus-bounded for the before-use obligation",
+   technique="contract-based deductive verification with map views, recursive specification functions unfolded per loop step, ghost registry obligations at generated sinks",
+   design="5.C12")
+
 NA = {
  "C02": "compiler correctness: needs a formal semantics of templ and of the emitted Go subset; no per-function contract can state 'denotes' without restating the generator (locally expressible parts are claimed under C01/C03/C04/C10/C16/C07)",
  "C08": "whole-formatter semantic preservation needs the same two semantics plus go/format; not expressible as function contracts",
